@@ -52,6 +52,10 @@ enum S {
     Uuid,
     /// duration: Arrow Interval(MonthDayNano) <-> Avro fixed(12)
     Duration,
+    /// same Avro type, other Arrow physical type on the WRITER side (the reader always produces the base type):
+    /// b'S' LargeUtf8, b'V' Utf8View, b'Y' LargeBinary, b'W' BinaryView, b'A' LargeList, b'L' ListView,
+    /// b'F' FixedSizeList (of size .1)
+    Layout(u8, usize, Box<S>),
     Opt(bool, Box<S>), // null_first, inner
     Union(Vec<S>),
     Rec(Vec<S>),
@@ -101,6 +105,11 @@ fn show_s(s: &S) -> String {
         S::Logical(k) => format!("t{k}"),
         S::Uuid => "U".into(),
         S::Duration => "I".into(),
+        S::Layout(k, n, i) => match (k, &**i) {
+            (b'F', S::Arr(x)) => format!("F{}{}", n, show_s(x)),
+            (_, S::Arr(x)) => format!("{}{}", *k as char, show_s(x)),
+            _ => format!("{}", *k as char),
+        },
         S::Opt(true, i) => format!("?{}", show_s(i)),
         S::Opt(false, i) => format!("!{}", show_s(i)),
         S::Union(b) => format!("u({})", b.iter().map(show_s).collect::<Vec<_>>().join(",")),
@@ -224,6 +233,13 @@ impl<'a> P<'a> {
             b't' => S::Logical(self.digits() as u8),
             b'U' => S::Uuid,
             b'I' => S::Duration,
+            k @ (b'S' | b'V') => S::Layout(k, 0, Box::new(S::Str)),
+            k @ (b'Y' | b'W') => S::Layout(k, 0, Box::new(S::Bytes)),
+            k @ (b'A' | b'L') => S::Layout(k, 0, Box::new(S::Arr(Box::new(self.schema())))),
+            b'F' => {
+                let n = self.digits();
+                S::Layout(b'F', n, Box::new(S::Arr(Box::new(self.schema()))))
+            }
             b'?' => S::Opt(true, Box::new(self.schema())),
             b'!' => S::Opt(false, Box::new(self.schema())),
             b'a' => S::Arr(Box::new(self.schema())),
@@ -355,6 +371,7 @@ fn avro_json(s: &S, k: &mut usize) -> String {
             *k += 1;
             format!("{{\"type\":\"fixed\",\"name\":\"X{}\",\"size\":12,\"logicalType\":\"duration\"}}", k)
         }
+        S::Layout(_, _, i) => avro_json(i, k),
         S::Opt(true, i) => format!("[\"null\",{}]", avro_json(i, k)),
         S::Opt(false, i) => format!("[{},\"null\"]", avro_json(i, k)),
         S::Union(b) => format!("[{}]", b.iter().map(|x| avro_json(x, k)).collect::<Vec<_>>().join(",")),
@@ -412,15 +429,25 @@ fn dtype(s: &S) -> DataType {
             1 => DataType::Date32,
             2 => DataType::Time32(TimeUnit::Millisecond),
             3 => DataType::Time64(TimeUnit::Microsecond),
-            4 => DataType::Timestamp(TimeUnit::Millisecond, Some("+00:00".into())),
-            5 => DataType::Timestamp(TimeUnit::Microsecond, Some("+00:00".into())),
+            4 => DataType::Timestamp(TimeUnit::Millisecond, Some(EXPECT_TZ.with(|t| t.get()).into())),
+            5 => DataType::Timestamp(TimeUnit::Microsecond, Some(EXPECT_TZ.with(|t| t.get()).into())),
             6 => DataType::Timestamp(TimeUnit::Millisecond, None),
             7 => DataType::Timestamp(TimeUnit::Microsecond, None),
-            8 => DataType::Timestamp(TimeUnit::Nanosecond, Some("+00:00".into())),
+            8 => DataType::Timestamp(TimeUnit::Nanosecond, Some(EXPECT_TZ.with(|t| t.get()).into())),
             _ => DataType::Timestamp(TimeUnit::Nanosecond, None),
         },
         S::Uuid => DataType::FixedSizeBinary(16),
         S::Duration => DataType::Interval(arrow_schema::IntervalUnit::MonthDayNano),
+        S::Layout(k, n, i) => match (k, &**i) {
+            (b'S', _) => DataType::LargeUtf8,
+            (b'V', _) => DataType::Utf8View,
+            (b'Y', _) => DataType::LargeBinary,
+            (b'W', _) => DataType::BinaryView,
+            (b'A', S::Arr(x)) => DataType::LargeList(Arc::new(field_of("item", x))),
+            (b'L', S::Arr(x)) => DataType::ListView(Arc::new(field_of("item", x))),
+            (_, S::Arr(x)) => DataType::FixedSizeList(Arc::new(field_of("item", x)), *n as i32),
+            _ => unreachable!(),
+        },
         S::Opt(_, i) => dtype(i),
         S::Union(b) => DataType::Union(union_fields(b), UnionMode::Dense),
         S::Rec(fs) => DataType::Struct(Fields::from(fs.iter().enumerate().map(|(i, x)| field_of(&format!("f{i}"), x)).collect::<Vec<_>>())),
@@ -444,11 +471,39 @@ fn default_v(s: &S) -> V {
         S::Logical(t) => if *t <= 2 { V::Int(0) } else { V::Long(0) },
         S::Uuid => V::Fixed(vec![0; 16]),
         S::Duration => V::Dur(0, 0, 0),
+        S::Layout(b'F', n, i) => match &**i {
+            S::Arr(x) => V::Arr(vec![default_v(x); *n]),
+            _ => unreachable!(),
+        },
+        S::Layout(_, _, i) => default_v(i),
         S::Opt(_, _) => V::None,
         S::Union(b) => V::Union(0, Box::new(default_v(&b[0]))),
         S::Rec(fs) => V::Rec(fs.iter().map(default_v).collect()),
         S::Arr(_) => V::Arr(vec![]),
         S::Map(_) => V::Map(vec![]),
+    }
+}
+/// what sits in the value slot of a null entry
+fn garbage_v(s: &S) -> V {
+    match s {
+        S::Int => V::Int(0x5a5a_5a5a),
+        S::Long => V::Long(0x5a5a_5a5a_5a5a_5a5a),
+        S::Float => V::Float(0x5a5a_5a5a),
+        S::Double => V::Double(0x5a5a_5a5a_5a5a_5a5a),
+        S::Bool => V::Bool(true),
+        S::Bytes => V::Bytes(vec![0x5a; 3]),
+        S::Str => V::Str(b"zz".to_vec()),
+        S::Fixed(n) => V::Fixed(vec![0x5a; *n]),
+        S::Dec(p, _, _) => V::Dec(i256::from_i128(if *p >= 2 { 90 } else { 9 }), if *p <= 38 { 16 } else { 32 }),
+        S::Logical(t) => if *t <= 2 { V::Int(0x5a5a) } else { V::Long(0x5a5a_5a5a) },
+        S::Layout(b'F', n, i) => match &**i {
+            S::Arr(x) => V::Arr(vec![garbage_v(x); *n]),
+            _ => unreachable!(),
+        },
+        S::Layout(_, _, i) if !matches!(**i, S::Arr(_)) => garbage_v(i),
+        S::Arr(i) if !matches!(**i, S::Null) => V::Arr(vec![garbage_v(i)]),
+        S::Rec(fs) => V::Rec(fs.iter().map(garbage_v).collect()),
+        _ => default_v(s),
     }
 }
 /// build the Arrow array holding `vals` (each of schema `s`)
@@ -510,6 +565,47 @@ fn build(s: &S, vals: &[V]) -> ArrayRef {
             Arc::new(b.finish())
         }
         S::Duration => Arc::new(IntervalMonthDayNanoArray::from(vals.iter().map(|v| if let V::Dur(m, d, ms) = v { IntervalMonthDayNano::new(*m as i32, *d as i32, *ms as i64 * 1_000_000) } else { panic!("dur") }).collect::<Vec<_>>())),
+        S::Layout(k, n, inner) => {
+            let strs = || vals.iter().map(|v| if let V::Str(b) = v { String::from_utf8(b.clone()).unwrap() } else { panic!("str") });
+            let bins = || vals.iter().map(|v| if let V::Bytes(b) = v { b.clone() } else { panic!("bytes") });
+            match (k, &**inner) {
+                (b'S', _) => Arc::new(LargeStringArray::from_iter_values(strs())),
+                (b'V', _) => Arc::new(StringViewArray::from_iter_values(strs())),
+                (b'Y', _) => Arc::new(LargeBinaryArray::from_iter_values(bins())),
+                (b'W', _) => Arc::new(BinaryViewArray::from_iter_values(bins())),
+                (_, S::Arr(x)) => {
+                    let mut flat = vec![];
+                    let mut lens = vec![];
+                    for v in vals {
+                        if let V::Arr(y) = v {
+                            lens.push(y.len());
+                            flat.extend(y.iter().cloned());
+                        } else {
+                            panic!("arr")
+                        }
+                    }
+                    let child = build(x, &flat);
+                    let f = Arc::new(field_of("item", x));
+                    match k {
+                        b'A' => Arc::new(LargeListArray::new(f, OffsetBuffer::<i64>::from_lengths(lens), child, None)),
+                        b'L' => {
+                            let mut offs = vec![];
+                            let mut o = 0i32;
+                            for l in &lens {
+                                offs.push(o);
+                                o += *l as i32;
+                            }
+                            Arc::new(ListViewArray::new(f, ScalarBuffer::from(offs), ScalarBuffer::from(lens.iter().map(|l| *l as i32).collect::<Vec<_>>()), child, None))
+                        }
+                        _ => {
+                            assert!(lens.iter().all(|l| l == n));
+                            Arc::new(FixedSizeListArray::new(f, *n as i32, child, None))
+                        }
+                    }
+                }
+                _ => unreachable!(),
+            }
+        }
         S::Opt(_, inner) if **inner == S::BoolSliced => {
             // nullable boolean column held as a sliced array: validity and values share the bit offset 3
             let mut padded: Vec<Option<bool>> = vec![Some(true), None, Some(false)];
@@ -520,7 +616,8 @@ fn build(s: &S, vals: &[V]) -> ArrayRef {
             Arc::new(BooleanArray::from(padded).slice(3, vals.len()))
         }
         S::Opt(_, inner) => {
-            let d = default_v(inner);
+            // payload under null slots is arbitrary non-zero data, never a tidy default
+            let d = garbage_v(inner);
             let filled: Vec<V> = vals.iter().map(|v| match v { V::Some(x) => (**x).clone(), V::None => d.clone(), _ => panic!("opt") }).collect();
             let valid: Vec<bool> = vals.iter().map(|v| matches!(v, V::Some(_))).collect();
             let arr = build(inner, &filled);
@@ -608,6 +705,7 @@ fn build(s: &S, vals: &[V]) -> ArrayRef {
 /// read the value at row `i` of `arr` as a value tree of schema `s` (names and metadata ignored)
 fn extract(s: &S, arr: &dyn Array, i: usize) -> Result<V, String> {
     Ok(match s {
+        S::Layout(_, _, inner) => return extract(inner, arr, i),
         S::Opt(_, inner) => {
             if arr.is_null(i) { V::None } else { V::Some(Box::new(extract(inner, arr, i)?)) }
         }
@@ -756,10 +854,55 @@ fn read_varlong(b: &[u8], i: &mut usize) -> Option<i64> {
     }
     Some(((z >> 1) as i64) ^ -((z & 1) as i64))
 }
-fn soe_decode(json: &str, frames: &[u8]) -> Result<(Vec<RecordBatch>, Fingerprint), String> {
-    let mut store = SchemaStore::new();
-    let fp = store.register(AvroSchema::new(json.to_string())).map_err(err_class)?;
-    let mut dec = ReaderBuilder::new().with_writer_schema_store(store).with_batch_size(1 << 20).build_decoder().map_err(err_class)?;
+thread_local! {
+    /// timezone id the reader is configured to produce for `timestamp-*` columns
+    static EXPECT_TZ: std::cell::Cell<&'static str> = const { std::cell::Cell::new("+00:00") };
+}
+/// reader options, chosen deterministically from the case line: 0 defaults, 1 `with_utf8_view(true)`,
+/// 2 `with_strict_mode(true)` (only when the schema has no `[T,"null"]` union, which strict mode refuses),
+/// 3 `with_tz(Tz::Utc)`
+fn reader_variant(line: &str, top: &[S]) -> u8 {
+    let h = line.bytes().fold(0xcbf29ce484222325u64, |h, b| (h ^ b as u64).wrapping_mul(0x100000001b3));
+    let v = (h % 4) as u8;
+    if v == 2 && has(&S::Rec(top.to_vec()), &|x: &S| matches!(x, S::Opt(false, _))) { 0 } else { v }
+}
+/// equal, except that a null of the input may have come back as an empty string
+fn eq_mod_null_empty(a: &V, b: &V) -> bool {
+    match (a, b) {
+        (V::None, V::Some(x)) => matches!(&**x, V::Str(s) if s.is_empty()),
+        (V::Some(x), V::Some(y)) => eq_mod_null_empty(x, y),
+        (V::Union(i, x), V::Union(j, y)) => i == j && eq_mod_null_empty(x, y),
+        (V::Rec(xs), V::Rec(ys)) | (V::Arr(xs), V::Arr(ys)) => xs.len() == ys.len() && xs.iter().zip(ys).all(|(x, y)| eq_mod_null_empty(x, y)),
+        (V::Map(xs), V::Map(ys)) => xs.len() == ys.len() && xs.iter().zip(ys).all(|((k, x), (l, y))| k == l && eq_mod_null_empty(x, y)),
+        (x, y) => x == y,
+    }
+}
+fn rows_eq_mod_null_empty(a: &[Vec<V>], b: &[Vec<V>]) -> bool {
+    a.len() == b.len() && a.iter().zip(b).all(|(x, y)| eq_mod_null_empty(&V::Rec(x.clone()), &V::Rec(y.clone())))
+}
+fn reader_builder(variant: u8) -> ReaderBuilder {
+    EXPECT_TZ.with(|t| t.set(if variant == 3 { "UTC" } else { "+00:00" }));
+    match variant {
+        1 => ReaderBuilder::new().with_utf8_view(true),
+        2 => ReaderBuilder::new().with_strict_mode(true),
+        3 => ReaderBuilder::new().with_tz(arrow_avro::codec::Tz::Utc),
+        _ => ReaderBuilder::new(),
+    }
+}
+fn soe_decode(json: &str, frames: &[u8], variant: u8, id: Option<u32>) -> Result<(Vec<RecordBatch>, Fingerprint), String> {
+    let (store, fp) = match id {
+        None => {
+            let mut store = SchemaStore::new();
+            let fp = store.register(AvroSchema::new(json.to_string())).map_err(err_class)?;
+            (store, fp)
+        }
+        Some(id) => {
+            let mut store = SchemaStore::new_with_type(arrow_avro::schema::FingerprintAlgorithm::Id);
+            let fp = store.set(Fingerprint::Id(id), AvroSchema::new(json.to_string())).map_err(err_class)?;
+            (store, fp)
+        }
+    };
+    let mut dec = reader_builder(variant).with_writer_schema_store(store).with_batch_size(1 << 20).build_decoder().map_err(err_class)?;
     let mut off = 0;
     let mut out = vec![];
     while off < frames.len() {
@@ -787,6 +930,7 @@ fn rabin_hex(fp: &Fingerprint) -> String {
 fn unslice(s: &S) -> S {
     match s {
         S::BoolSliced => S::Bool,
+        S::Layout(_, _, i) => unslice(i),
         S::Opt(n, i) => S::Opt(*n, Box::new(unslice(i))),
         S::Arr(i) => S::Arr(Box::new(unslice(i))),
         S::Map(i) => S::Map(Box::new(unslice(i))),
@@ -872,7 +1016,7 @@ fn kf_tags(line: &str) -> String {
     let t: Vec<&str> = line.split(' ').collect();
     let si = match t.get(1).copied() {
         Some("avro") | Some("ocf") => 2,
-        Some("soe") | Some("ocfz") => 3,
+        Some("soe") | Some("conf") | Some("ocfz") => 3,
         _ => return String::new(),
     };
     if t.len() < si + 2 {
@@ -885,6 +1029,19 @@ fn kf_tags(line: &str) -> String {
     // from row indices that are already relative to the child
     if has(&top, &|x: &S| matches!(x, S::Arr(i) | S::Map(i) if matches!(**i, S::BoolSliced) || matches!(&**i, S::Opt(_, j) if **j == S::BoolSliced))) {
         out.push_str(" kf:avro-list-sliced-boolean-values");
+    }
+    // reader option `with_utf8_view(true)` (reader variant 1 of this case line):
+    //  `kf:avro-utf8view-drops-nulls` — a nullable string column: Decoder::StringView::flush rebuilds the array
+    //   from `Vec<&str>` and loses the validity buffer (nulls come back as empty strings);
+    //  `kf:avro-utf8view-uuid-as-string` — a uuid column: the `uuid` logical type is only recognised on
+    //   Codec::Utf8, so with the option the column comes back as a Utf8View string, not FixedSizeBinary(16)
+    if t[1] != "avro" && reader_variant(line, &top_of(&top)) == 1 {
+        if has(&top, &|x: &S| matches!(x, S::Opt(_, i) if unslice(i) == S::Str)) {
+            out.push_str(" kf:avro-utf8view-drops-nulls");
+        }
+        if has(&top, &|x: &S| matches!(x, S::Uuid)) {
+            out.push_str(" kf:avro-utf8view-uuid-as-string");
+        }
     }
     if t[1] != "ocf" && t[1] != "ocfz" {
         return out;
@@ -917,39 +1074,65 @@ fn run_case(line: &str, sink: &mut Sink, tags: &str) -> String {
                 Ok(e) => e,
                 Err(e) => return err_class(e),
             };
-            if let Err(e) = enc.encode(&batch) {
-                return err_class(e);
+            // two `encode` calls before one `flush` when there are at least two rows
+            let _ = batch;
+            let cut = if rows.len() >= 2 { rows.len() / 2 } else { rows.len() };
+            for part in [&rows[..cut], &rows[cut..]] {
+                if part.is_empty() && !rows.is_empty() {
+                    continue;
+                }
+                let (_, _, b) = make_batch(&top, part);
+                if let Err(e) = enc.encode(&b) {
+                    return err_class(e);
+                }
             }
             let er = enc.flush();
             let v: Vec<String> = er.iter().map(|b| hex(&b)).collect();
             show_list(&v)
         }
-        "soe" => {
+        "soe" | "conf" => {
+            // `soe <rabin fp> …`: single-object framing; `conf <id> …`: Confluent wire format (00 + 4-byte BE id)
             let top = top_of(&parse_s(t[3]));
             let rows = parse_rows(t[4]);
-            let (schema, json, batch) = make_batch(&top, &rows);
-            let mut w = match WriterBuilder::new(schema).build::<_, AvroSoeFormat>(Vec::<u8>::new()) {
+            let id: Option<u32> = if t[1] == "conf" { Some(t[2].parse().unwrap()) } else { None };
+            EXPECT_TZ.with(|t| t.set("+00:00"));
+            let (schema, json, _) = make_batch(&top, &rows);
+            let mut b = WriterBuilder::new(schema);
+            if let Some(id) = id {
+                b = b.with_fingerprint_strategy(arrow_avro::schema::FingerprintStrategy::Id(id));
+            }
+            let mut w = match b.build::<_, AvroSoeFormat>(Vec::<u8>::new()) {
                 Ok(w) => w,
                 Err(e) => return err_class(e),
             };
-            if let Err(e) = w.write(&batch) {
-                return err_class(e);
+            // two `write` calls through the same writer when there are at least two rows
+            let cut = if rows.len() >= 2 { rows.len() / 2 } else { rows.len() };
+            for part in [&rows[..cut], &rows[cut..]] {
+                if part.is_empty() && !rows.is_empty() {
+                    continue;
+                }
+                let (_, _, batch) = make_batch(&top, part);
+                if let Err(e) = w.write(&batch) {
+                    return err_class(e);
+                }
             }
             w.finish().unwrap();
             let bytes = w.into_inner();
-            match soe_decode(&json, &bytes) {
+            let variant = reader_variant(line, &top);
+            match soe_decode(&json, &bytes, variant, id) {
                 Ok((batches, fp)) => {
-                    if rabin_hex(&fp) != t[2] {
+                    if id.is_none() && rabin_hex(&fp) != t[2] {
                         oracle.push((format!("fingerprint {} != case {}", rabin_hex(&fp), t[2]), ""));
                     }
                     match rows_of_batches(&top, &batches) {
                         Ok(back) if back == rows => {}
-                        Ok(back) => oracle.push((format!("soe round trip: read {}", show_rows(&back)), "")),
-                        Err(e) => oracle.push((format!("soe round trip: extract {e}"), "")),
+                        Ok(back) => oracle.push((format!("soe round trip (reader variant {variant}): read {}", show_rows(&back)), if variant == 1 && rows_eq_mod_null_empty(&rows, &back) { "finding:utf8view-null-as-empty" } else { "" })),
+                        Err(e) => oracle.push((format!("soe round trip (reader variant {variant}): extract {e}"), if variant == 1 && e == "uuid" { "finding:utf8view-uuid-type" } else { "" })),
                     }
                 }
-                Err(e) => oracle.push((format!("soe round trip: reader {e}"), "")),
+                Err(e) => oracle.push((format!("soe round trip (reader variant {variant}): reader {e}"), "")),
             }
+            EXPECT_TZ.with(|t| t.set("+00:00"));
             hex(&bytes)
         }
         "ocf" | "ocfz" => {
@@ -1007,7 +1190,11 @@ fn run_case(line: &str, sink: &mut Sink, tags: &str) -> String {
                 }
             }
             if header_ok {
-                match ReaderBuilder::new().with_batch_size(OCF_BATCH_SIZE).build(std::io::Cursor::new(bytes.clone())) {
+                // reader options vary with the case; files with more than 1000 rows are read with the DEFAULT
+                // batch size (1024), smaller ones in batches of 7
+                let variant = reader_variant(line, &top);
+                let rb = if all_rows.len() > 1000 { reader_builder(variant) } else { reader_builder(variant).with_batch_size(OCF_BATCH_SIZE) };
+                match rb.build(std::io::Cursor::new(bytes.clone())) {
                     Ok(r) => {
                         let mut bs = vec![];
                         let mut failed = false;
@@ -1027,14 +1214,15 @@ fn run_case(line: &str, sink: &mut Sink, tags: &str) -> String {
                         if !failed {
                             match rows_of_batches(&top, &bs) {
                                 Ok(back) if back == all_rows => {}
-                                Ok(back) => oracle.push((format!("ocf round trip: read {}", show_rows(&back)), "")),
-                                Err(e) => oracle.push((format!("ocf round trip: extract {e}"), "")),
+                                Ok(back) => oracle.push((format!("ocf round trip (reader variant {variant}): read {}", show_rows(&back)), if variant == 1 && rows_eq_mod_null_empty(&all_rows, &back) { "finding:utf8view-null-as-empty" } else { "" })),
+                                Err(e) => oracle.push((format!("ocf round trip (reader variant {variant}): extract {e}"), if variant == 1 && e == "uuid" { "finding:utf8view-uuid-type" } else { "" })),
                             }
                         }
                     }
                     Err(e) => oracle.push((format!("ocf round trip: open {}", err_class(e)), "")),
                 }
             }
+            EXPECT_TZ.with(|t| t.set("+00:00"));
             if t[1] == "ocfz" {
                 return format!("rows={}", all_rows.len());
             }
@@ -1119,8 +1307,16 @@ fn gen_schema(rng: &mut Rng, depth: usize, allow_opt: bool, allow_union: bool) -
         2 => S::Long,
         3 => S::Float,
         4 => S::Double,
-        5 => S::Bytes,
-        6 => S::Str,
+        5 => match rng.below(6) {
+            0 => S::Layout(b'Y', 0, Box::new(S::Bytes)),
+            1 => S::Layout(b'W', 0, Box::new(S::Bytes)),
+            _ => S::Bytes,
+        },
+        6 => match rng.below(6) {
+            0 => S::Layout(b'S', 0, Box::new(S::Str)),
+            1 => S::Layout(b'V', 0, Box::new(S::Str)),
+            _ => S::Str,
+        },
         7 => S::Fixed(*rng.pick(&[1usize, 2, 4, 12, 16])),
         8 => S::Enum(1 + rng.usize(5)),
         9 => {
@@ -1132,7 +1328,15 @@ fn gen_schema(rng: &mut Rng, depth: usize, allow_opt: bool, allow_union: bool) -
             let inner = gen_schema(rng, depth - 1, false, false);
             if inner == S::Null { S::Opt(true, Box::new(S::Str)) } else { S::Opt(rng.bool(), Box::new(inner)) }
         }
-        12 => S::Arr(Box::new(gen_schema(rng, depth - 1, true, true))),
+        12 => {
+            let a = S::Arr(Box::new(gen_schema(rng, depth - 1, true, true)));
+            match rng.below(8) {
+                0 => S::Layout(b'A', 0, Box::new(a)),
+                1 => S::Layout(b'L', 0, Box::new(a)),
+                2 => S::Layout(b'F', 1 + rng.usize(3), Box::new(a)),
+                _ => a,
+            }
+        }
         13 => S::Map(Box::new(gen_schema(rng, depth - 1, true, true))),
         14 => {
             let n = 1 + rng.usize(3);
@@ -1173,6 +1377,7 @@ fn avro_kind(s: &S) -> u8 {
         S::Str | S::Uuid => 7,
         S::Arr(_) => 8,
         S::Map(_) => 9,
+        S::Layout(_, _, i) => avro_kind(i),
         S::Opt(..) | S::Union(_) => 10,
         S::Fixed(_) | S::Enum(_) | S::Rec(_) | S::Dec(_, _, Some(_)) | S::Duration => 255,
     }
@@ -1319,6 +1524,11 @@ fn gen_value(rng: &mut Rng, s: &S, budget: &mut i64) -> V {
             3 => V::Long(rng.pick_or(&[0, 1, 86_399_999_999, 63, 64, 1 << 31], 0, 86_399_999_999)),
             _ => V::Long(if rng.chance(1, 2) { *rng.pick(&I64B) } else { rng.next_u64() as i64 >> rng.below(64) }),
         },
+        S::Layout(b'F', n, i) => match &**i {
+            S::Arr(x) => V::Arr((0..*n).map(|_| gen_value(rng, x, budget)).collect()),
+            _ => unreachable!(),
+        },
+        S::Layout(_, _, i) => gen_value(rng, i, budget),
         S::Uuid => V::Fixed(if rng.chance(1, 4) { vec![*rng.pick(&[0u8, 0xff, 0x0a, 0xa0]); 16] } else { rng.bytes(16) }),
         S::Duration => V::Dur(*rng.pick(&[0u32, 1, 12, 255, i32::MAX as u32]), *rng.pick(&[0u32, 1, 31, 65536, i32::MAX as u32]), *rng.pick(&[0u32, 1, 999, 86_400_000, u32::MAX])),
         S::Opt(_, i) => {
@@ -1344,7 +1554,7 @@ fn gen_value(rng: &mut Rng, s: &S, budget: &mut i64) -> V {
 }
 fn has(s: &S, f: &dyn Fn(&S) -> bool) -> bool {
     f(s) || match s {
-        S::Opt(_, i) | S::Arr(i) | S::Map(i) => has(i, f),
+        S::Opt(_, i) | S::Arr(i) | S::Map(i) | S::Layout(_, _, i) => has(i, f),
         S::Union(b) | S::Rec(b) => b.iter().any(|x| has(x, f)),
         _ => false,
     }
@@ -1370,6 +1580,13 @@ fn schema_tags(top: &[S]) -> String {
         ("timestamp-local", &|x: &S| matches!(x, S::Logical(6 | 7 | 9))),
         ("uuid", &|x: &S| matches!(x, S::Uuid)),
         ("duration", &|x: &S| matches!(x, S::Duration)),
+        ("large-utf8", &|x: &S| matches!(x, S::Layout(b'S', ..))),
+        ("utf8-view", &|x: &S| matches!(x, S::Layout(b'V', ..))),
+        ("large-binary", &|x: &S| matches!(x, S::Layout(b'Y', ..))),
+        ("binary-view", &|x: &S| matches!(x, S::Layout(b'W', ..))),
+        ("large-list", &|x: &S| matches!(x, S::Layout(b'A', ..))),
+        ("list-view", &|x: &S| matches!(x, S::Layout(b'L', ..))),
+        ("fixed-size-list", &|x: &S| matches!(x, S::Layout(b'F', ..))),
     ] {
         if has(&s, f) {
             t.push_str(" t:");
@@ -1425,6 +1642,11 @@ fn gen_case(rng: &mut Rng) -> (String, String) {
             let rows = gen_rows(rng, nrows);
             (format!("C17 avro {} {}", sch, show_rows(&rows)), format!("op:avro{} {}", st, if nrows > 0 { "nt" } else { "" }))
         }
+        4 if rng.chance(1, 3) => {
+            let rows = gen_rows(rng, nrows);
+            let id = *rng.pick(&[0u32, 1, 255, 256, 0x01020304, u32::MAX]);
+            (format!("C17 conf {} {} {}", id, sch, show_rows(&rows)), format!("op:conf{} {}", st, if nrows > 0 { "nt" } else { "" }))
+        }
         4 | 5 => {
             let rows = gen_rows(rng, nrows);
             let mut k = 0;
@@ -1477,6 +1699,51 @@ fn gen_case(rng: &mut Rng) -> (String, String) {
     }
 }
 
+/// a deterministic block of boundary cases emitted at the start of every run
+fn fixed_block() -> Vec<String> {
+    let mut out = vec![];
+    // zig-zag varint byte-length boundaries of long / int: ±2^(7k-1) and neighbours
+    let mut longs: Vec<i64> = vec![0, 1, -1, i64::MAX, i64::MIN, i64::MAX - 1, i64::MIN + 1];
+    for k in 1..=9u32 {
+        let b = 1i64 << (7 * k - 1);
+        longs.extend([b - 1, b, b + 1, -b - 1, -b, -b + 1]);
+    }
+    out.push(format!("C17 avro r(l) {}", longs.iter().map(|v| format!("r(l{v};)")).collect::<Vec<_>>().join("|")));
+    let ints: Vec<i64> = longs.iter().copied().filter(|v| *v >= i32::MIN as i64 && *v <= i32::MAX as i64).chain([i32::MAX as i64, i32::MIN as i64]).collect();
+    out.push(format!("C17 avro r(i,t1,?i) {}", ints.iter().map(|v| format!("r(i{v};i{v};+i{v};)")).collect::<Vec<_>>().join("|")));
+    // 10-byte varints followed by fewer / more than 10 bytes (slow path vs unrolled path of read_varint)
+    out.push("C17 dec r(al) 02ffffffffffffffffff0100".to_string());
+    out.push("C17 dec r(al,al) 02ffffffffffffffffff010002feffffffffffffffff0100".to_string());
+    // decimals: every two's-complement length boundary, bytes- and fixed-backed, 128- and 256-bit
+    for (sch, w, kmax) in [("D38.0", 16usize, 15u32), ("G16.38.0", 16, 15), ("D76.0", 32, 31), ("G32.76.0", 32, 31), ("G20.38.2", 16, 15)] {
+        let mut rows = vec![];
+        for k in 1..=kmax {
+            let half = pow_i256(2, 8 * k - 1);
+            for v in [half.checked_sub(i256::ONE).unwrap(), half, half.checked_add(i256::ONE).unwrap(), half.wrapping_neg(), half.wrapping_neg().checked_sub(i256::ONE).unwrap(), half.wrapping_neg().checked_add(i256::ONE).unwrap()] {
+                rows.push(format!("r(D{w}:{v};)"));
+            }
+        }
+        let max = pow_i256(10, if w == 16 { 38 } else { 76 }).checked_sub(i256::ONE).unwrap();
+        for v in [i256::ZERO, i256::ONE, i256::MINUS_ONE, max, max.wrapping_neg()] {
+            rows.push(format!("r(D{w}:{v};)"));
+        }
+        out.push(format!("C17 avro r({sch}) {}", rows.join("|")));
+    }
+    // string / bytes lengths at the 1→2→3 byte length-prefix boundaries, array counts at 63/64/65
+    for n in [0usize, 1, 63, 64, 65, 8191, 8192] {
+        out.push(format!("C17 avro r(s,y,V,W) r(s{0};y{0};s{0};y{0};)", "61".repeat(n)));
+    }
+    for n in [63usize, 64, 65, 128] {
+        let items = "i1;".repeat(n);
+        let bools: String = (0..n).map(|i| if i % 3 == 0 { 'T' } else { 'F' }).collect();
+        out.push(format!("C17 avro r(ai,Ai,Li,ab) r(a({items})a({items})a({items})a({bools}))"));
+    }
+    // more rows than the reader's default batch size (1024) in one file, and 8 rows at batch size 7
+    out.push(format!("C17 ocf r(i,?s) {}", (0..1030).map(|i| format!("r(i{};{})", i, if i % 5 == 0 { "_".to_string() } else { format!("+s{:02x};", 0x61 + i % 26) })).collect::<Vec<_>>().join("|")));
+    out.push(format!("C17 ocfz snappy r(l,u(d,s)) {}", (0..1030).map(|i| format!("r(l{};u{}:{})", i, i % 2, if i % 2 == 0 { "d3ff0000000000000;" } else { "s61;" })).collect::<Vec<_>>().join("|")));
+    out
+}
+
 fn main() {
     let args = parse_args();
     if std::env::var("VERIF_LOUD").is_err() {
@@ -1490,6 +1757,11 @@ fn main() {
             sink.case(line, a, &tags);
         }
     } else {
+        for line in fixed_block() {
+            let tags = format!("fixed nt{}", kf_tags(&line));
+            let a = run_case(&line, &mut sink, &tags);
+            sink.case(line, a, &tags);
+        }
         let mut rng = Rng::new(args.seed ^ 0xC17A);
         let n = n_cases(&args, 1500, 40000);
         for _ in 0..n {
